@@ -97,9 +97,9 @@ def event_lines(kind, t):
     return [], [], ["%d = N 0 %d" % (max(0, t - 4), t - max(0, t - 4))]  # sustain END lands on t
 
 
-def chart(tempo, ts=((0, 4),), res="192", extra=((), (), ())):
+def chart(tempo, ts=((0, 4),), res="192", extra=((), (), ()), song_extra=()):
     sync = ["%d = TS %d" % x for x in ts if x[0] == 0] + ["%d = B %d" % x for x in tempo] + ["%d = TS %d" % x for x in ts if x[0] != 0] + list(extra[0])
-    return mk(res=res, sync=sync, events=list(extra[1]), tracks={"ExpertSingle": list(extra[2])})
+    return mk(res=res, sync=sync, events=list(extra[1]), tracks={"ExpertSingle": list(extra[2])}, song_extra=song_extra)
 
 
 def base_of(k):
@@ -153,6 +153,9 @@ def run_shard(shard, ctx):
             expect(ctx, chart(b, ts=((5, 4), (9, 3)), extra=extra, res=RES), "tick-0 signature dropped, later signatures kept")
             for r in ("0", "00"):
                 expect(ctx, chart(b, res=r, extra=extra), "Resolution = %s" % r)
+                # the chart's resolution is its FIRST Resolution line (C10); later lines do not repair a zero
+                expect(ctx, chart(b, res=r, extra=extra, song_extra=['Name = "n"', "Resolution = 192"]), "Resolution = %s, a second Resolution line further down" % r)
+                expect(ctx, chart(b, res=r, extra=extra, song_extra=["Resolution = 480", "Resolution = 0"]), "Resolution = %s, more Resolution lines directly below" % r)
             for j in range(k - 1):
                 dup = list(b)
                 dup[j + 1] = (b[j][0], b[j + 1][1])
